@@ -365,14 +365,15 @@ func sigOf(c *jcase) string {
 				return sigShadow
 			}
 		}
-		// ... or a second virtual (o, d, autogen) from a bucket "d/autogen" next to a physical mapping of (o, d)
+		// ... or a second virtual (o, d, autogen) from a bucket "d/autogen", un-shadowed by a default physical
+		// mapping of a database NAMED d in any org (the loop compares database names only)
 		for _, b2 := range c.Buckets {
 			d2, r2, plain2 := splitName(b2.Name)
 			if plain2 || b2.Org != b.Org || d2 != d || r2 != "autogen" {
 				continue
 			}
 			for _, o := range c.Ops {
-				if o.Op == "create" && o.Org == b.Org && o.DB == d {
+				if o.Op == "create" && o.DB == d {
 					return sigShadow
 				}
 			}
